@@ -37,6 +37,11 @@ Proof. exact with_creds_from_root. Qed.
 Theorem C05_descriptor_before_creds : shape_descriptor_before_set_creds = true.
 Proof. exact descriptor_before_creds. Qed.
 
+(* translated from the current source: create() hands the request flags unmodified to open_inode (existing file)
+   and the writeback-adjusted ones to create_file_excl, as Model/Passthrough.v transcribes *)
+Theorem C05_create_flag_use : shape_create_flag_use = true.
+Proof. exact create_flag_use. Qed.
+
 (* ownership, up to the Entry returned to the client: an object created by mkdir / mknod / symlink for a caller
    is owned by that caller (gid: the caller's unless the directory is setgid).
    C05_owner_create_partial: for create() the same is proved at the level of the creating host call only. *)
@@ -91,6 +96,7 @@ Print Assumptions C05_creds_restored.
 Print Assumptions C05_creds_restored_history.
 Print Assumptions C05_caller_identity.
 Print Assumptions C05_descriptor_before_creds.
+Print Assumptions C05_create_flag_use.
 Print Assumptions C05_owner.
 Print Assumptions C05_owner_calls.
 Print Assumptions C05_owner_create_partial.
